@@ -108,7 +108,14 @@ def run_case(rng, tier, case):
             else:
                 a.efficiency = x['efficiency'] = gen.pick(rng, [v for v in (1., 0.9, 0.8, 0.5) if v != x.get('efficiency')])
             case.feature('second_run_after_factor_change')
-            r2 = flow.run_portfolio(spec, split=split, built=r.built)
+            fw = None
+            if rng.random() < 0.5 and not split:
+                # ... with the first part of the horizon fixed to the PREVIOUS solution (which balanced under the old factors): either no solution is
+                # returned, or one that balances under the new factors
+                T_ = r.built.timegrid.T
+                fw = {'I': np.arange(T_) < max(1, T_ // 2), 'x': np.asarray(r.res.x, float).copy()}
+                case.feature('second_run_with_fixed_window')
+            r2 = flow.run_portfolio(spec, split=split, built=r.built, fix_time_window=fw)
             if r2.ok and r2.solved:
                 if mon_balance_output(case, P, r2.out, clause='balance.output_second_run'):
                     nt = True
